@@ -29,6 +29,27 @@ CLAIMS = {
                   "index monomials) + canonical-form identity checking; exhaustive finite evaluation "
                   "of comparison-only predicates; call-site coverage check",
         design="3/C01"),
+    "C04": dict(
+        text="Static decision of the structural clauses of C04: (B1) eigenbasis_of.__enter__ pushes "
+             "exactly one basis/transformation/registry triple and __exit__ pops both stacks, "
+             "transforms every registered unprotected object back with the inverse pair, re-tags and "
+             "re-registers it, deletes the registry entry, clears the context flag iff depth returns "
+             "to 1, on every path and without swallowing exceptions; (B2) package-wide who-may-call: "
+             "contexts are only constructed as 'with' items and only Manager/eigenbasis_of touch the "
+             "basis stacks, so exit on exceptions is guaranteed by the language; (B3) every "
+             "BasisManaged class tags itself with the current basis in its constructor's call "
+             "closure; (B4) index-algebra proof, from the code of every transform() method and every "
+             "managed storage, that operators map as S^-1.A.S and tensors covariantly "
+             "(R'rho'=(R rho)'), with and without the inv argument, using only S1.S=1 (no "
+             "orthogonality) - hence traces, tr(A rho), tensor actions are basis independent and the "
+             "exit transformation undoes the entry; (B5) managed property getters/setters transform "
+             "before touching storage and stacked transformations compose outer-first. Not decided: "
+             "eigh's ordering/degeneracy behaviour and rounding.",
+        note=BASE_NOTE + "numpy.linalg.inv returns the inverse; 'with' guarantees __exit__.",
+        technique="protocol (pairing/ordering) rules on the AST of the context manager, package-wide "
+                  "who-may-call scan over resolved calls, constructor call-closure rule, index-algebra "
+                  "abstract interpretation of every transform() with canonical-form equality",
+        design="3/C04"),
 }
 
 NOT_YET = "check not built yet in this round (see DESIGN.md section 3 for the planned rules)"
